@@ -119,6 +119,20 @@ def reline(tree, rng, noline_ok):
 
 def compile_case(case):
     """Returns (id, code, text) or (id, None, reason) when the source does not compile."""
+    if case["k"] == "astnoline":
+        # 3.10: a statement without a location in a block that joins two branches -> the real assembler emits no-line runs
+        import ast
+        try:
+            tree = ast.parse(case["text"])
+            body = tree.body if case.get("stmt") is not None else tree.body[0].body
+            st = body[case["stmt"] if case.get("stmt") is not None else 1]
+            for n in ast.walk(st):
+                if hasattr(n, "lineno"):
+                    n.lineno = n.end_lineno = -1
+            code = compile(tree, "<%s>" % case["id"], "exec", dont_inherit=True)
+        except (SyntaxError, ValueError, TypeError, SystemError, IndexError, AttributeError) as e:
+            return case["id"], None, "astnoline-compile:%s" % type(e).__name__
+        return case["id"], code, case["text"]
     if case["k"] == "ast":
         import ast
         id_, text, filename, mode, opt = resolve(case["base"])
@@ -150,7 +164,7 @@ def compile_case(case):
 
 def replay_case(case):
     """Self-contained copy of a case for a replay file (text inlined when small)."""
-    if case["k"] == "w9":
+    if case["k"] in ("w9", "astnoline"):
         return case
     if case["k"] == "ast":
         b = replay_case(case["base"])
